@@ -980,7 +980,7 @@ class bcrypt_sha256(_wrapped_bcrypt):
     _v2_hash_re = re.compile(r"""(?x)
         ^
         [$]bcrypt-sha256[$]
-        v=(?P<version>[0-9]+),
+        v=(?P<version>0|[1-9][0-9]*),
         t=(?P<type>2b),
         r=(?P<rounds>[0-9]{1,2})
         [$](?P<salt>[^$]{22})
